@@ -317,8 +317,8 @@ impl Indexable for ast::BangOperator {
                 }
 
                 if let Some((index_range, Some(index_typ))) = value_types.next() {
-                    if !index_typ.can_be_casted_to(&ctx.symbol_map, &TY![dag]) {
-                        ctx.error(index_range, format!("expected dag, found {index_typ}"));
+                    if !index_typ.can_be_casted_to(&ctx.symbol_map, &TY![int]) {
+                        ctx.error(index_range, format!("expected int, found {index_typ}"));
                     }
                 }
 
